@@ -1,7 +1,7 @@
 """C07 — Routing-table structural invariants."""
 import re
 
-from analysis import (Prov, Guards, FlagEngine, fmt, fmt_short, walk, roots, short, comparison, find_calls, callee_matches,
+from analysis import (reachable_flags, constant_discriminant_edges, Prov, Guards, FlagEngine, fmt, fmt_short, walk, roots, short, comparison, find_calls, callee_matches,
                       must_pass, const_int_of, propagate)
 from facts import AnchorError, strip_closure
 from harness import Rule
@@ -180,6 +180,17 @@ def r3(ctx):
         # on the flag-true edge after a successful insertion the slot is cleared on every path
         for sb, tgt in flag_edges:
             rr = b.reachable(tgt, removed_blocks=pend_none)
+            if any(x in rr for x in b.return_blocks()):
+                okk = False
+    if okk:
+        # every insertion path consults that flag: after a node was written, each path to the return either clears the slot or
+        # passes the flag's false edge (the inserted key is not the pending one)
+        flag_false = []
+        for sb, tgt in flag_edges:
+            flag_false += [(sb, s_) for s_ in b.blocks[sb].term.succs() if s_ != tgt]
+        flag_false += constant_discriminant_edges(b, g)
+        for wbi, wt in ws:
+            rr = reachable_flags(b, p, wt.target, removed_blocks=pend_none, removed_edges=flag_false)
             if any(x in rr for x in b.return_blocks()):
                 okk = False
     rule.check(okk, "inserting the pending node's own key clears the pending slot", "insert|pending-twin",
